@@ -8,3 +8,6 @@ open GN.Props.C20
 #print axioms step_isolated
 #print axioms run_host_unchanged
 #print axioms run_isolated
+#print axioms new_runtime_sees_the_current_host
+#print axioms host_changes_reach_no_runtime
+#print axioms js_step_isolated
